@@ -289,7 +289,7 @@ def check_property(prop, tier, seed, only=None):
                     problems.append(("facts", "vfacts failed: " + fout[-800:]))
             else:
                 problems.append(("harness-build", "harness does not build against /repo with -tags verif: " + hout[-1500:]))
-            targets = [f"DiskfsModel.Props.{prop}"] + drivers
+            targets = [f"DiskfsModel.Props.{prop}", "DiskfsModel.Audit.Common"] + drivers   # the audit file imports Audit.Common
             pok, pout = lake_build(targets, log)
             if not pok:
                 # which theorem / agreement lemma broke?
